@@ -74,7 +74,7 @@ func genC12(r *kernel.Rand) *kernel.Scenario {
 	c["assets"] = int64(1 + r.Weighted([]int{3, 1}))
 	c["r"] = int64(r.Uint64() >> 2)
 	c["virtual"] = int64(r.Weighted([]int{4, 4, 2, 1})) // number of honest virtual channels A<->B (sub-allocations locked in A-H and B-H)
-	if r.Bool(0.5) { // (a publisher that holds a standard mutex is never parked: Sim.UnderStdMutex)
+	if r.Bool(0.5) {                                    // (a publisher that holds a standard mutex is never parked: Sim.UnderStdMutex)
 		// without matched virtual-channel proposals nothing is sent under a std
 		// mutex, so the bus may park publishers (a slow link: replies stay in
 		// flight while other messages arrive)
